@@ -81,6 +81,52 @@ theorem C13_sweep_invisible (now : Nat) (m s : Store) (hR : R now m s) (k : Stri
     R now (CleanupExpired now m).1 s ∧ R now (gcKey now m k).1 s :=
   ⟨(CleanupExpired_ref hR).2, (gcKey_ref hR k).2⟩
 
+/-- **A sweep may be split.** `CleanupExpired` as a scan phase and a later delete phase, with
+arbitrary calls of other callers in between (and likewise the deferred deletions of `GetHash`/…):
+as long as the delete phase re-checks expiry (`sweepDelete true ks`), for EVERY key list `ks` —
+in particular any list collected by a scan of an earlier state — and every position of the delete
+phases in a history with a monotone clock, all calls answer exactly as the sequential map with expiry. -/
+theorem C13_sweep_split_invisible (h : List (Nat × MStep)) (hmono : monoM h = true)
+    (hchk : allChecked h = true) :
+    holdsSeq (callsOf h) ((runM h FMap.empty).map render) = true := by
+  have : runM h FMap.empty = TTLStore.run Spec.dflt (callsOf h) TTLStore.empty := by
+    cases h with
+    | nil => rfl
+    | cons e h =>
+      exact runM_ref (e :: h) FMap.empty TTLStore.empty e.1 (R_refl _ _)
+        (monoM_ge (e :: h) e.1 ⟨Nat.le_refl _, hmono⟩) hmono hchk
+  unfold holdsSeq
+  rw [this]
+  exact beq_self_eq_true _
+
+/-- History of the seeded regression "two-phase cleanup": `k` expires, a scan at 1500 collects it,
+`SetNX` re-creates it at 1600, the delete phase of the old scan lands at 1700. -/
+def splitSweepHistory (checked : Bool) : List (Nat × MStep) :=
+  [(1000, .call (.set "k" (.atom (.str "x")) 40)), (1600, .call (.setNX "k" (.atom (.str "y")) 0)),
+   (1700, .sweepDelete checked (scanExpired 1500 (Set 1000 FMap.empty "k" (.atom (.str "x")) 40).1)),
+   (1800, .call (.get "k"))]
+
+/-- The delete phase WITHOUT re-check removes a live, re-written key: no sequential map with expiry
+explains the answers (the negation of `C13_sweep_split_invisible` for the unchecked variant). -/
+theorem sweep_blind_witness :
+    scanExpired 1500 (Set 1000 FMap.empty "k" (.atom (.str "x")) 40).1 = ["k"] ∧
+    (runM (splitSweepHistory false) FMap.empty).map render = ["ok", "T", "nf"] ∧
+    holdsSeq (callsOf (splitSweepHistory false)) ((runM (splitSweepHistory false) FMap.empty).map render) = false ∧
+    holdsSeq (callsOf (splitSweepHistory true)) ((runM (splitSweepHistory true) FMap.empty).map render) = true := by
+  decide +kernel
+
+/-- **One critical section per method (T2).** Number of `Lock`/`RLock` regions of every modelled
+method of the current source, pinned. `GetHash`/`GetAllHash`/`GetExpiration` have two; every other
+locking method, `CleanupExpired` included, has exactly one. -/
+theorem section_counts :
+    allSkeletons.map sectionCount = [1, 1, 1, 1, 0, 0, 1, 1, 1, 2, 2, 1, 0, 1, 1, 2, 1, 1, 1, 0] := by
+  decide +kernel
+
+/-- Every method is one atomic step: one critical section, or two where the second only deletes
+after re-checking expiry under the write lock. A method split into check-then-act sections (e.g. a
+sweep that scans under `RLock` and deletes under a later `Lock` without re-check) breaks this. -/
+theorem atomic_calls : atomicCalls = true := by decide +kernel
+
 /-- **Lock facts (T2)**: in the current source of every modelled method, every access to `m.data`,
 to an item's fields and to a stored hash lies inside a critical section of `m.mu`. -/
 theorem lock_facts : allSkeletons.all (fun sk => lockedOK sk false []) = true := by decide +kernel
@@ -109,7 +155,10 @@ theorem skel_ok :
        "IsZero", "@item.Expiration", "After", "@item.Expiration", "delete", "@m.data", "mu.Unlock", "}",
        "{ret", "}", "{ret", "}"] ∧
     Gen.Skel.Mem_SetList = ["m.Set"] ∧ Gen.Skel.Mem_GetList = ["m.Get", "{ret", "}", "{ret", "}"] ∧
-    Gen.Skel.Mem_Incr = ["m.IncrBy"] := by decide +kernel
+    Gen.Skel.Mem_Incr = ["m.IncrBy"] ∧
+    Gen.Skel.Mem_CleanupExpired =
+      ["mu.Lock", "defer mu.Unlock", "@m.data", "IsZero", "@item.Expiration", "After", "@item.Expiration",
+       "delete", "@m.data"] := by decide +kernel
 
 /-- Every method that reads an item tests `IsZero` before `After` (the guard whose absence was
 defect C13-a), and none uses `Before`. -/
@@ -118,15 +167,17 @@ theorem expiry_guard_everywhere :
       (sk.filter (fun t => t == "After")).length == (sk.filter (fun t => t == "IsZero")).length
         || sk == Gen.Skel.Mem_GetExpiration) = true := by decide +kernel
 
-/-- **Atomicity under concurrent callers.** Each call being one critical section (`lock_facts`),
-a concurrent execution is a schedule of atomic steps.  For EVERY number of callers, every program
+/-- **Atomicity under concurrent callers.** HYPOTHESIS `atomicCalls`: every method of the source is
+ONE critical section of `m.mu` (or one plus a re-checking delete), so that a concurrent execution is
+a schedule of the model's atomic steps; it is discharged for the current source by `atomic_calls`
+(and `lock_facts`: every access lies inside a section) — `C13_linearizable_current`.  For EVERY number of callers, every program
 per caller and EVERY schedule that lets all callers finish, what the callers observe on the memory
 backend is explained by the sequential map with expiry executing the calls in one order
 (`holdsConc`, the predicate applied to the real backend's free-running and gated runs).
 Scope: one burst at a fixed clock reading `now`, from the empty store; across clock readings the
 sequential theorem `C13_refines` applies to the lock-order history. -/
-theorem C13_linearizable (now : Nat) (sched : List Nat) (progs : List (List Op))
-    (hc : completes sched progs = true) :
+theorem C13_linearizable (_hatomic : atomicCalls = true) (now : Nat) (sched : List Nat)
+    (progs : List (List Op)) (hc : completes sched progs = true) :
     holdsConc now progs (observeThreads render progs.length (runSched now sched FMap.empty progs)) = true := by
   unfold holdsConc observeThreads
   rw [List.range_eq_range', zip_range progs _ 0]
@@ -152,6 +203,40 @@ theorem repo_call_sites :
     Gen.Skel.Repo_Lock_Acquire = ["SetNX"] ∧ Gen.Skel.Repo_Lock_RenewLock = ["Get", "CompareAndSwap"] ∧
     Gen.Skel.Repo_Generic_List = ["GetList"] ∧ Gen.Skel.Repo_Generic_AddToList = ["AppendToList"] := by
   decide +kernel
+
+/-- **Atomicity under concurrent callers, from ANY reachable store.** A sequential history `pre`
+(monotone clock, ending no later than `now`; it may leave live, permanent and expired-but-unswept
+entries of every value kind), then a burst of concurrent callers at clock `now` under EVERY
+schedule that lets them finish, then a sequential probe `suf` (monotone, not before `now`):
+the prefix answers as the reference, the callers' answers are explained by one order of their
+calls run by the reference from the prefix's end state, and the probe answers as the reference
+does after that order (`holdsBurst`, the predicate applied to the real backend's burst runs).
+Same hypothesis `atomicCalls` as `C13_linearizable`. -/
+theorem C13_linearizable_from (_hatomic : atomicCalls = true) (pre suf : History) (now : Nat)
+    (sched : List Nat) (progs : List (List Op))
+    (hpre : TTLStore.Monotone pre = true) (hpre_le : ∀ e ∈ pre, e.1 ≤ now)
+    (hsuf : TTLStore.Monotone suf = true) (hsuf_ge : ∀ e ∈ suf, now ≤ e.1)
+    (hc : completes sched progs = true) :
+    holdsBurst pre now progs suf
+      ((C13.run pre FMap.empty).map render)
+      (observeThreads render progs.length (runSched now sched (exec pre FMap.empty) progs))
+      ((C13.run suf (execSched now sched (exec pre FMap.empty) progs)).map render) = true := by
+  have hR0 : R now (exec pre FMap.empty) (TTLStore.exec Spec.dflt pre TTLStore.empty) :=
+    exec_ref pre FMap.empty TTLStore.empty 0 now (R_refl _ _) (fun _ _ => Nat.zero_le _) hpre hpre_le
+      (Nat.zero_le _)
+  unfold holdsBurst observeThreads
+  rw [C13_refines pre hpre, List.range_eq_range', zip_range progs _ 0]
+  simp only [List.length_map, List.length_range', beq_self_eq_true, Bool.true_and]
+  apply linK_sched now _ sched _ _ progs _ hR0 hc (Nat.le_refl _)
+  intro s' hR'
+  rw [run_ref suf _ s' now hR' hsuf_ge hsuf]
+  exact beq_self_eq_true _
+
+/-- `C13_linearizable` for the source as extracted on this run. -/
+theorem C13_linearizable_current (now : Nat) (sched : List Nat) (progs : List (List Op))
+    (hc : completes sched progs = true) :
+    holdsConc now progs (observeThreads render progs.length (runSched now sched FMap.empty progs)) = true :=
+  C13_linearizable atomic_calls now sched progs hc
 
 /-! ## Findings -/
 
@@ -191,5 +276,22 @@ example : C13.run exampleHistory FMap.empty =
 /-- A schedule that completes two callers; the hypothesis of `C13_linearizable` is inhabited. -/
 example : completes [1, 0, 0, 1] [[.setNX "a" (.atom (.str "x")) 0, .get "a"], [.setNX "a" (.atom (.str "y")) 0, .get "a"]] = true := by
   decide
+
+/-- Hypotheses of `C13_linearizable_from` are inhabited: an expired-but-unswept key (set at 1000 for
+40 ns, burst at 2000), two callers racing `SetNX` on it, a probe afterwards. -/
+example :
+    TTLStore.Monotone [(1000, Op.set "a" (.atom (.str "x")) 40)] = true ∧
+    completes [1, 0] [[Op.setNX "a" (.atom (.str "y")) 0], [Op.setNX "a" (.atom (.str "z")) 0]] = true ∧
+    (observeThreads render 2 (runSched 2000 [1, 0] (exec [(1000, Op.set "a" (.atom (.str "x")) 40)] FMap.empty)
+      [[Op.setNX "a" (.atom (.str "y")) 0], [Op.setNX "a" (.atom (.str "z")) 0]])) = [["F"], ["T"]] := by
+  decide +kernel
+
+/-- Two winners of `SetNX` on an expired-but-unswept key (seeded regression "RLock fast path") are
+not explained by any order. -/
+theorem setNX_two_winners_witness :
+    holdsBurst [(1000, Op.set "a" (.atom (.str "x")) 40)] 2000
+      [[Op.setNX "a" (.atom (.str "y")) 0], [Op.setNX "a" (.atom (.str "z")) 0]] []
+      ["ok"] [["T"], ["T"]] [] = false := by
+  decide +kernel
 
 end Tunnox.C13
